@@ -1,5 +1,5 @@
 """C13: the Clifford/stabilizer subsystem agrees with matrices (tableau rules, act_on dispatch,
-measurement, CH form)."""
+measurement, CH form incl. CH-form measurement / copy / kron and CliffordSimulator.run with mid-circuit measurement)."""
 from __future__ import annotations
 
 import os
@@ -733,9 +733,7 @@ def obligations(tier):
         cx.close(cvec(cx, ch_amps(st)), cvec(cx, exp), label=f'chform.project_Z(q={q}, z={z}) amplitudes (normalised projection, phase kept)')
 
     PZ_DESC = 'StabilizerStateChForm.project_Z(q, z) from an ARBITRARY valid CH-form state (2 qubits; F, G, M, gamma, v, s symbolic under the representation invariant, omega = i), every q and z: every amplitude of the new state is the old amplitude times sqrt(|supp|/|supp_z|) (sqrt 2 when both outcomes are possible, 1 when Z_q is definite) on basis states with x_q = z and 0 elsewhere (all of them 0 when z is the impossible outcome)'
-    if tier != 'quick' and os.environ.get('C13_PZ3'):
-        for q_ in range(3):
-            obs.append(Obligation(f'chform.measure.project_Z.n3.q{q_}', lambda cx, q_=q_: projz_body(cx, qz=(q_, cx.choose('z', 2)), n=3), twin=(lambda cx, q_=q_: projz_body(cx, wrong=True, qz=(q_, cx.choose('z', 2)), n=3)), points=ch_points(4, n=3, offset=q_), opts={'weight': 40, 'vc_timeout_ms': 300000}, desc=PZ_DESC))
+    # n = 3 was tried for project_Z: more than 3000 paths per qubit, not finished after 15 CPU-minutes per shard: the claim is n = 2
     for q_ in range(2):
         for z_ in range(2):
             obs.append(Obligation(f'chform.measure.project_Z.q{q_}z{z_}', lambda cx, qz=(q_, z_): projz_body(cx, qz=qz), twin=(lambda cx, qz=(q_, z_): projz_body(cx, wrong=True, qz=qz)), points=ch_points(6, offset=11 * (2 * q_ + z_)), opts={'weight': 12, 'vc_timeout_ms': 120000}, desc=PZ_DESC))
@@ -767,8 +765,8 @@ def obligations(tier):
     ME_DESC = 'StabilizerStateChForm._measure(q, prng) / measure(axes, prng) from an ARBITRARY valid 2-qubit CH-form state with a SCRIPTED generator (every drawn bit a solver variable, every generator call recorded), axes: one qubit, both orders of two qubits, the same qubit twice: the outcomes have non-zero Born probability (the definite value when Z_q is definite, the same value when an axis is measured again), exactly log2|current supp| calls randint(2) per measurement and no other generator call, post-state = normalised projection of the old state on the returned outcomes (amplitude by amplitude, phase kept)'
     for via, axes_menu in (('_measure', [(0,), (1,)]), ('measure', [(0,), (1,), (0, 1), (1, 0), (0, 0), (1, 1)])):
         for ax_ in axes_menu:
-            if tier == 'quick' and via == 'measure' and ax_ in ((0,), (1,), (1, 1)):
-                continue  # single axes go through _measure above; (1, 1) is the mirror image of (0, 0): thorough tier
+            if tier == 'quick' and via == 'measure' and ax_ in ((0,), (1,), (1, 0), (1, 1)):
+                continue  # single axes go through _measure above; (1, 0) / (1, 1) mirror (0, 1) / (0, 0): thorough tier
             obs.append(Obligation(f'chform.measure.{via}.q' + ''.join(map(str, ax_)), lambda cx, ax_=ax_, via=via: chmeasure_body(cx, axes=ax_, via=via), twin=(lambda cx, ax_=ax_, via=via: chmeasure_body(cx, wrong=True, axes=ax_, via=via)), points=ch_points(8, offset=5 + 3 * sum(ax_) + len(ax_), extra=lambda j: {'coin0': j % 2, 'coin1': (j // 2) % 2, 'coin2': (j // 4) % 2}), opts={'weight': 12, 'vc_timeout_ms': 120000}, desc=ME_DESC))
 
     def chdist_body(cx, wrong=False, q=None):
@@ -814,7 +812,7 @@ def obligations(tier):
         n = 2
         name, g, k = COPY_OPS[ops[cx.choose('op', len(ops))]]
         axes = list(itertools.permutations(range(n), k))
-        if tier == 'quick' and name == 'H':
+        if tier == 'quick' and name in ('H', 'measure'):
             axes = axes[:1]
         ax = axes[cx.choose('axes', len(axes))]
         side = cx.choose('modified', 2)  # 0: the COPY is modified and the original must keep its state; 1: the other way round
@@ -837,14 +835,14 @@ def obligations(tier):
         exp = [(-a if wrong else a) for a in a0]
         cx.close(cvec(cx, ch_amps(keep)), cvec(cx, exp), label=f'chform copy ({level}, deep_copy_buffers={deep}): {name}{list(ax)} on the ' + ('copy leaves the original' if side == 0 else 'original leaves the copy') + ' unchanged (every amplitude)')
 
-    CP_DESC = 'StabilizerStateChForm.copy(deep_copy_buffers) / StabilizerChFormSimulationState.copy(deep_copy_buffers) from an ARBITRARY valid 2-qubit CH-form state, deep_copy_buffers True and False: after one in-place operation (quick: CX for all four kinds of copy, measure with scripted bits for the deep state copy and the shallow simulation-state copy, H on qubit 0 for the latter; thorough: H, S, CX, measure, X, CZ, project_Z for all; every placement) on the copy, every amplitude of the ORIGINAL is what it was before, and vice versa (operation on the original, amplitudes of the copy); for the simulation state also that measurement records are not shared. 8 explicit concrete validation points per obligation (real numpy buffers)'
+    CP_DESC = 'StabilizerStateChForm.copy(deep_copy_buffers) / StabilizerChFormSimulationState.copy(deep_copy_buffers) from an ARBITRARY valid 2-qubit CH-form state, deep_copy_buffers True and False: after one in-place operation (quick: CX for all four kinds of copy, measure of qubit 0 with scripted bits for the deep state copy and the shallow simulation-state copy, H on qubit 0 for the latter; thorough: H, S, CX, measure, X, CZ, project_Z for all; every placement) on the copy, every amplitude of the ORIGINAL is what it was before, and vice versa (operation on the original, amplitudes of the copy); for the simulation state also that measurement records are not shared. 8 explicit concrete validation points per obligation (real numpy buffers)'
     NAMES_ = [o_[0] for o_ in COPY_OPS]
     for level in ('state', 'simstate'):
         for deep in (True, False):
             if tier == 'quick':
                 # quick: CX (G, F, M, gamma in place) for all four kinds of copy, measure (update_sum: v, s and, through
                 # _CNOT/_CZ/_S_right, the matrices) for the default state copy and for the shallow simulation-state copy
-                # that Simulator.run makes between repetitions, H (568 paths per placement) on qubit 0 for the latter;
+                # that Simulator.run makes between repetitions, H (568 paths per placement) for the latter, both on qubit 0;
                 # everything else is in the thorough tier
                 groups = [('CX', 'measure') if (level == 'simstate') != deep else ('CX',)] + ([('H',)] if (level == 'simstate' and not deep) else [])
             else:
@@ -865,6 +863,8 @@ def obligations(tier):
         if wrong:
             exp[cx.choose('wrong_entry', 2**n)] *= -1
         cx.close(cvec(cx, ch_amps(kr)), cvec(cx, exp), label=f'chform.kron{shape}: amplitude of |x_a x_b> is the product of the amplitudes (phase included)')
+        if shape != (1, 1):
+            return  # larger shapes (thorough tier): amplitudes only (the aliasing part multiplies the paths by 18)
         # no shared buffers between the product and its factors
         objs = [kr, a, b]
         saved = [cvec(cx, exp), cvec(cx, aa), cvec(cx, bb)]
@@ -879,7 +879,7 @@ def obligations(tier):
             if j != which:
                 cx.close(cvec(cx, ch_amps(objs[j])), saved[j], label=f'chform.kron{shape}: {gname}({axq}) on ' + ('the product' if which == 0 else 'a factor') + ' leaves the other objects unchanged')
 
-    KR_DESC = 'StabilizerStateChForm.kron of two ARBITRARY valid CH-form states (1 + 1 qubits; thorough adds 2 + 1 and 1 + 2), omega = i and -1: every amplitude of the product state is the product of the amplitudes of the factors (big-endian, first factor most significant, phase included), and the product shares no buffer with its factors (H / S applied to any one of the three objects leaves the amplitudes of the other two unchanged)'
+    KR_DESC = 'StabilizerStateChForm.kron of two ARBITRARY valid CH-form states (1 + 1 qubits; thorough adds 2 + 1 and 1 + 2), omega = i and -1: every amplitude of the product state is the product of the amplitudes of the factors (big-endian, first factor most significant, phase included), and (1 + 1 qubits) the product shares no buffer with its factors (H / S applied to any one of the three objects leaves the amplitudes of the other two unchanged)'
 
     def kron_points(shape, count):
         pa, pb = ch_points(count, n=shape[0], offset=3, prefix='a'), ch_points(count, n=shape[1], offset=9, prefix='b')
@@ -1008,6 +1008,9 @@ def main(tier, seed=0, replay=None, only=None, procs=None):
         'chform': 'reindex for 2 (quick: one swap and one 3-cycle, output basis states 0, 1, 4, 6) / all 6 permutations and all 8 output basis states (thorough) of 3 qubits from an arbitrary valid CH-form state',
         'chform_gates': '7 (quick) / 16 (thorough) gates (Paulis, H, S, sqrt X/Y and inverses, CZ, CX, SWAP, shifted gates, global phase) on an arbitrary valid 2-qubit CH state, all placements, every amplitude incl. global phase',
         'group': 'all 24 one-qubit Clifford elements and all 576 ordered pairs (solver-enumerated, exhaustive)',
-        'outside': ['two-qubit Clifford group (11520 elements) laws, CliffordTableau.then/inverse for n >= 2', 'CH-form measurement (project_Z), kron', 'n > 3'],
+        'chform_measure': 'project_Z(q, z) (every q, z), _measure(q, prng) and measure(axes, prng) (axes: one qubit; two qubits in order and the same qubit twice in quick, all ordered pairs in thorough) from an arbitrary valid 2-qubit CH-form state (all of F, G, M, gamma, v, s symbolic, omega = i): new amplitudes = normalised projection of the old amplitudes (sqrt(|supp|/|supp_z|), phase kept, zero state for the impossible outcome); scripted generator: every drawn bit a solver variable, every call recorded (exactly log2|supp| calls randint(2), nothing else); distribution: the real code is run on ALL 2^k scripted bit strings of the same symbolic state and the number of strings returning 1 is 2^k P(1)',
+        'chform_copy_kron': 'copy(deep_copy_buffers True/False) of StabilizerStateChForm and of StabilizerChFormSimulationState from an arbitrary valid 2-qubit state: one in-place operation on the copy (or on the original) leaves every amplitude of the other object unchanged (quick: CX for all four kinds of copy, measure and H on qubit 0 for the copies named in the obligation names; thorough: H, S, CX, measure, X, CZ, project_Z, all placements); kron of two arbitrary valid states (1+1 qubits quick; 2+1, 1+2 thorough): product amplitudes incl. phase, no shared buffers; 6-8 explicit concrete validation points (real numpy buffers) per obligation',
+        'clifford_simulator': 'BOUNDED EXPLORATION: CliffordSimulator.run (repetitions 2 and 3, split_untangled_states False/True) and simulate on 5 concrete circuits with mid-circuit measurements followed by CNOT/CZ/S/H, all scripted random bits solver-enumerated: every repetition is a possible Born trajectory of a dense state-vector walk, generator calls as documented, deterministic circuit equal to cirq.Simulator, final state vector of simulate equal to the post-selected dense walk incl. global phase',
+        'outside': ['two-qubit Clifford group (11520 elements) laws, CliffordTableau.then/inverse for n >= 2', 'CH-form measurement / copy for n >= 3 qubits (project_Z n = 3: > 3000 paths per qubit, not finished in 15 CPU-minutes per shard)', 'measurement through the simulator from a SYMBOLIC state (simulator obligations start from |0..0> of concrete circuits)', 'statistical quality of numpy RandomState itself (the generator is scripted)', 'n > 3'],
     }
     return run_check(PID, tier, 'checks.C13', SHIMS, LEVEL, BASE_ASSUMPTIONS, bounds, seed=seed, replay=replay, only=only, procs=procs)
